@@ -30,7 +30,8 @@ CONSTANTS HiCard, LoCard,   \* limb cardinalities
           MaxInst,          \* model: instance indexes 0..MaxInst
           NZ,               \* model: zone indexes 0..NZ-1
           MaxReq,           \* model: requested counts -1..MaxReq
-          Foreign           \* model: members that use the random generator
+          NForeign,         \* model: number of members that use the random generator
+          CJ                \* model: do the cluster's spread-minimising members run the CanJoin check
 
 ASSUME /\ HiCard \in Nat \ {0} /\ LoCard \in Nat \ {0} /\ MaxZ \in Nat \ {0} /\ R \in Nat \ {0}
        /\ LoCard % MaxZ = 0
@@ -38,12 +39,13 @@ ASSUME /\ HiCard \in Nat \ {0} /\ LoCard \in Nat \ {0} /\ MaxZ \in Nat \ {0} /\ 
 
 VARIABLES reserve,  \* <<inst, zone>> -> reserve of that generator (sorted sequence of R tokens), as far as known
           ring,     \* member -> [gen, toks]: the token ring of the cluster
+          pool,     \* all tokens in the ring (= AllTokens(ring), kept incrementally: it is the taken set of a join)
           parts,    \* partition id -> token sequence stored by AddPartition
           shrunk,   \* some member has lost tokens or left since the ring was empty
           last      \* observation of the latest step (history variable, not in the VIEW)
 
-vars == <<reserve, ring, parts, shrunk, last>>
-view == <<reserve, ring, parts, shrunk>>
+vars == <<reserve, ring, pool, parts, shrunk, last>>
+view == <<reserve, ring, pool, parts, shrunk>>
 
 -----------------------------------------------------------------------------
 (* Tokens *)
@@ -62,7 +64,7 @@ SpaceHasAtLeast(n) == n <= 0 \/ ((n-1) \div LoCard) < HiCard
 RandomGen         == [kind |-> "random", inst |-> -1, zone |-> -1, cj |-> FALSE]
 SpreadGen(i,z,cj) == [kind |-> "spread", inst |-> i, zone |-> z, cj |-> cj]
 Key(g)            == <<g.inst, g.zone>>
-NoMember          == "nomember"
+NoMember          == <<-2, 0>>
 None              == [ev |-> "none"]
 
 AllTokens(rg) == UNION {rg[m].toks : m \in DOMAIN rg}
@@ -111,12 +113,36 @@ C_CanJoinEnabled(c) == c.ev = "canjoin" => c.enabled = (c.gen.kind = "spread" /\
 (* via = "direct" (GenerateTokens(R, {})), "bylarger" (what the computation of a generator with a *)
 (* larger index attributes to inst; order not significant), "partition" (AddPartition).           *)
 IsObs(c) == c.ev = "observe"
-C_Reproducible(c) == IsObs(c) => /\ Len(c.toks) = R
-                                 /\ Range(c.toks) = Range(reserve[<<c.inst, c.zone>>])
-                                 /\ c.via # "bylarger" => c.toks = reserve[<<c.inst, c.zone>>]
-(* incremental form of ReservesDisjoint: the reserve just observed against all others *)
-C_DisjointStep(c) == IsObs(c) => \A k \in DOMAIN reserve \ {<<c.inst, c.zone>>} :
-                                    Range(reserve[k]) \cap Range(c.toks) = {}
+C_ObsShape(c)     == IsObs(c) => /\ Len(c.toks) = R /\ Sorted(c.toks)
+                                 /\ \A t \in Range(c.toks) : IsTok(t) /\ Cong(t) = c.zone
+C_Reproducible(c) == IsObs(c) => c.toks = reserve[<<c.inst, c.zone>>]
+(* incremental form of ReservesDisjoint: the reserve just observed against every other reserve of *)
+(* its zone (reserves of different zones are disjoint by C_ObsShape's congruence, see            *)
+(* ZonesDisjointByCongruence)                                                                     *)
+C_DisjointStep(c) == IsObs(c) => \A k \in DOMAIN reserve :
+                                    (k[2] = c.zone /\ k[1] # c.inst)
+                                    => Range(reserve[k]) \cap Range(c.toks) = {}
+
+(* Observation of the reserves of ALL instances 0..n of a zone as the generator of index n       *)
+(* computes them: c = [ev |-> "family", zone, fam], fam[j] = reserve attributed to instance j-1. *)
+IsFam(c) == c.ev = "family"
+C_FamilyShape(c) == IsFam(c) => \A j \in DOMAIN c.fam :
+                                   /\ Len(c.fam[j]) = R /\ Sorted(c.fam[j])
+                                   /\ \A t \in Range(c.fam[j]) : IsTok(t) /\ Cong(t) = c.zone
+C_FamilyReproducible(c) == IsFam(c) => \A j \in DOMAIN c.fam : c.fam[j] = reserve[<<j-1, c.zone>>]
+C_FamilyDisjoint(c) ==
+  IsFam(c) => LET U == {c.fam[p[1]][p[2]] : p \in (DOMAIN c.fam) \X (1..R)} IN   \* (not UNION: TLC's is quadratic)
+              /\ Cardinality(U) = Len(c.fam) * R
+              /\ \A k \in DOMAIN reserve : (k[2] = c.zone /\ k[1] >= Len(c.fam))
+                                            => Range(reserve[k]) \cap U = {}
+
+(* Constructors: c = [ev |-> "gen", ctor, nz, zin, idok, ok].  By name: the zone list must have  *)
+(* 1..MaxZ entries, contain the zone, and the instance name must end in -<digits>.               *)
+ConstructSpec(ctor, nz, zin, idok) == ctor # "name" \/ (nz \in 1..MaxZ /\ zin /\ idok)
+C_Constructor(c) == c.ev = "gen" => c.ok = ConstructSpec(c.ctor, c.nz, c.zin, c.idok)
+
+(* AddPartition: c = [ev |-> "partition", id, panic] *)
+C_PartitionNoPanic(c) == c.ev = "partition" => ~c.panic
 
 -----------------------------------------------------------------------------
 (* History invariants over everything observed so far *)
@@ -141,16 +167,23 @@ PartitionsDisjoint == \A p, q \in DOMAIN parts :
                         p # q => Range(parts[p]) \cap Range(parts[q]) = {}
 
 (* The cluster *)
+PoolIsUnion == pool = AllTokens(ring)
 AllDistinct == \A m1, m2 \in DOMAIN ring : m1 # m2 => ring[m1].toks \cap ring[m2].toks = {}
 SpreadOwnReserve == \A m \in DOMAIN ring :
                       (ring[m].gen.kind = "spread" /\ Key(ring[m].gen) \in DOMAIN reserve)
                       => ring[m].toks \subseteq Range(reserve[Key(ring[m].gen)])
 RingZoneCongruent == \A m \in DOMAIN ring : ring[m].gen.kind = "spread"
                       => \A t \in ring[m].toks : Cong(t) = ring[m].gen.zone
-OnlySpread(rg) == \A m \in DOMAIN rg : rg[m].gen.kind = "spread"
-(* in a cluster of spread-minimising members only, nobody is ever short of tokens *)
+(* every member uses a spread-minimising generator, no two members the same (index, zone) *)
+PureSpread(rg) == /\ \A m \in DOMAIN rg : rg[m].gen.kind = "spread"
+                  /\ \A m1, m2 \in DOMAIN rg : m1 # m2 => Key(rg[m1].gen) # Key(rg[m2].gen)
+(* in a cluster of such members nobody is ever short of tokens: a member that asks for what it   *)
+(* lacks up to R gets it, whatever the others hold                                               *)
 S_NeverShort(rg, c) ==
-  (IsCall(c) /\ c.member # NoMember /\ IsSpread(c) /\ ~c.panic /\ OnlySpread(rg) /\ c.taken = AllTokens(rg))
+  (/\ IsCall(c) /\ c.member # NoMember /\ IsSpread(c) /\ ~c.panic      \* (a member's call: taken = pool)
+   /\ PureSpread(rg)
+   /\ \A m \in DOMAIN rg : m # c.member => Key(rg[m].gen) # Key(c.gen)
+   /\ c.member \in DOMAIN rg => rg[c.member].gen = c.gen)
   => LET mine == IF c.member \in DOMAIN rg THEN rg[c.member].toks ELSE {}
      IN  Len(c.out) = Min(Want(c.req), R - Cardinality(mine))
 (* with the CanJoin check on and nobody shrinking, the members with tokens form a prefix per zone *)
@@ -174,6 +207,7 @@ CallObs(g, m, req, taken, out, pan) ==
              ELSE LET old == IF m \in DOMAIN ring THEN ring[m].toks ELSE {}
                   IN  [x \in DOMAIN ring \cup {m} |->
                          IF x = m THEN [gen |-> g, toks |-> old \cup Range(out)] ELSE ring[x]]
+  /\ pool' = IF m = NoMember THEN pool ELSE pool \cup Range(out)
   /\ UNCHANGED <<reserve, parts, shrunk>>
 
 Contract(c) == /\ C_NoPanic(c) /\ C_InSpace(c) /\ C_NoTaken(c) /\ C_SortedUnique(c) /\ C_AtMost(c)
@@ -181,11 +215,12 @@ Contract(c) == /\ C_NoPanic(c) /\ C_InSpace(c) /\ C_NoTaken(c) /\ C_SortedUnique
                /\ C_SpreadLowestFirst(c) /\ C_SpreadExact(c) /\ C_ZoneCongruentOut(c)
 
 (* a member joins / tops up: taken = every token in the ring (its own included) *)
-JoinObs(g, m, req, out, pan) == CallObs(g, m, req, AllTokens(ring), out, pan)
+JoinObs(g, m, req, out, pan) == CallObs(g, m, req, pool, out, pan)
 
 LoseObs(m, S) ==
   /\ m \in DOMAIN ring /\ S \subseteq ring[m].toks
   /\ ring' = [ring EXCEPT ![m].toks = @ \ S]
+  /\ pool' = pool \ S
   /\ shrunk' = TRUE
   /\ last' = [ev |-> "lose"]
   /\ UNCHANGED <<reserve, parts>>
@@ -193,6 +228,7 @@ LoseObs(m, S) ==
 LeaveObs(m) ==
   /\ m \in DOMAIN ring
   /\ ring' = [x \in DOMAIN ring \ {m} |-> ring[x]]
+  /\ pool' = pool \ ring[m].toks
   /\ shrunk' = TRUE
   /\ last' = [ev |-> "leave"]
   /\ UNCHANGED <<reserve, parts>>
@@ -202,17 +238,27 @@ ObserveObs(via, i, z, toks) ==
                 ELSE [k \in DOMAIN reserve \cup {<<i, z>>} |->
                         IF k = <<i, z>> THEN toks ELSE reserve[k]]
   /\ last' = [ev |-> "observe", via |-> via, inst |-> i, zone |-> z, toks |-> toks]
-  /\ UNCHANGED <<ring, parts, shrunk>>
+  /\ UNCHANGED <<ring, pool, parts, shrunk>>
 
 CanJoinObs(g, prevPresent, prevHasTokens, enabled, ok) ==
   /\ last' = [ev |-> "canjoin", gen |-> g, prevPresent |-> prevPresent,
               prevHasTokens |-> prevHasTokens, enabled |-> enabled, ok |-> ok]
-  /\ UNCHANGED <<reserve, ring, parts, shrunk>>
+  /\ UNCHANGED <<reserve, ring, pool, parts, shrunk>>
 
-AddPartitionObs(p, toks) ==
-  /\ parts' = [q \in DOMAIN parts \cup {p} |-> IF q = p THEN toks ELSE parts[q]]
-  /\ last' = [ev |-> "partition", id |-> p]
-  /\ UNCHANGED <<reserve, ring, shrunk>>
+AddPartitionObs(p, toks, pan) ==
+  /\ parts' = IF pan THEN parts ELSE [q \in DOMAIN parts \cup {p} |-> IF q = p THEN toks ELSE parts[q]]
+  /\ last' = [ev |-> "partition", id |-> p, panic |-> pan]
+  /\ UNCHANGED <<reserve, ring, pool, shrunk>>
+
+FamilyObs(z, fam) ==
+  /\ reserve' = [k \in DOMAIN reserve \cup {<<j-1, z>> : j \in DOMAIN fam} |->
+                   IF k \in DOMAIN reserve THEN reserve[k] ELSE fam[k[1]+1]]
+  /\ last' = [ev |-> "family", zone |-> z, fam |-> fam]
+  /\ UNCHANGED <<ring, pool, parts, shrunk>>
+
+ConstructObs(ctor, nz, zin, idok, ok) ==
+  /\ last' = [ev |-> "gen", ctor |-> ctor, nz |-> nz, zin |-> zin, idok |-> idok, ok |-> ok]
+  /\ UNCHANGED <<reserve, ring, pool, parts, shrunk>>
 
 -----------------------------------------------------------------------------
 (* The exhaustive model *)
@@ -220,6 +266,7 @@ Insts     == 0..MaxInst
 Zones     == 0..(NZ-1)
 Keys      == Insts \X Zones
 Reqs      == (-1)..MaxReq
+Foreign   == {<<-1, n>> : n \in 1..NForeign}      \* members that use the random generator
 Members   == Keys \cup Foreign
 EmptyFcn  == [x \in {} |-> 0]
 
@@ -236,22 +283,25 @@ GoodReserves(f) ==
 
 ZoneTok(z) == {t \in Tok : Cong(t) = z}
 
-ZoneBlocks == {T \in SUBSET Tok : Cardinality(T) = R /\ \E z \in Zones : T \subseteq ZoneTok(z)}
-
+(* every assignment of tokens to instance indexes (the zone of a token is its residue) in    *)
+(* which each (instance, zone) gets exactly R tokens; MaxInst+1 = "in nobody's reserve"       *)
 Init ==
-  /\ \E S \in [Keys -> ZoneBlocks] :
-        /\ \A k \in Keys : S[k] \subseteq ZoneTok(k[2])
-        /\ \A k1, k2 \in Keys : k1 # k2 => S[k1] \cap S[k2] = {}
-        /\ reserve = [k \in Keys |-> SortSet(S[k])]
+  /\ \E own \in [Tok -> 0..(MaxInst+1)] :
+        LET Block(k) == {t \in Tok : own[t] = k[1] /\ Cong(t) = k[2]} IN
+        /\ \A k \in Keys : Cardinality(Block(k)) = R
+        /\ \A t \in Tok : Cong(t) \notin Zones => own[t] = MaxInst+1
+        /\ reserve = [k \in Keys |-> SortSet(Block(k))]
         /\ GoodReserves(reserve)
   /\ ring = EmptyFcn
+  /\ pool = {}
   /\ parts = EmptyFcn
   /\ shrunk = FALSE
   /\ last = None
 
-(* every output the contract allows.  For the spread-minimising generator the candidates are *)
-(* filtered by the DECLARATIVE clauses; Step_SpreadExact then shows that they determine the  *)
-(* output (= FirstFree), and FirstFreeAllowed that they are satisfiable.                     *)
+(* every output the contract allows.  For the spread-minimising generator: the constructive  *)
+(* answer FirstFree AND every candidate that satisfies the declarative clauses; the Step_    *)
+(* properties then show both that FirstFree satisfies the declarative clauses and that they  *)
+(* admit nothing else (Step_SpreadExact).                                                    *)
 CallRec(g, req, taken, out) == [ev |-> "call", gen |-> g, req |-> req, taken |-> taken, out |-> out,
                                 panic |-> FALSE, member |-> NoMember]
 Declarative(c) == /\ C_NoTaken(c) /\ C_SortedUnique(c) /\ C_AtMost(c) /\ C_SpreadFromReserve(c)
@@ -259,7 +309,8 @@ Declarative(c) == /\ C_NoTaken(c) /\ C_SortedUnique(c) /\ C_AtMost(c) /\ C_Sprea
 Outputs(g, req, taken) ==
   IF g.kind = "random"
   THEN {SortSet(S) : S \in {T \in SUBSET (Tok \ taken) : Cardinality(T) = Want(req)}}
-  ELSE {out \in {SortSet(S) : S \in SUBSET Range(reserve[Key(g)])} :
+  ELSE {FirstFree(reserve[Key(g)], Want(req), taken)} \cup
+       {out \in {SortSet(S) : S \in SUBSET Range(reserve[Key(g)])} :
           Declarative(CallRec(g, req, taken, out))}
 
 Generate(g, m, req, taken) == \E out \in Outputs(g, req, taken) : CallObs(g, m, req, taken, out, FALSE)
@@ -278,12 +329,11 @@ PureCall == /\ ring = EmptyFcn /\ parts = EmptyFcn
                   /\ Generate(GenOf(m, FALSE), NoMember, req, taken)
 
 (* a member joins or tops up its tokens; with cj it first passes the CanJoin check *)
-Join == \E m \in Members, req \in Reqs, cj \in BOOLEAN :
-          LET g == GenOf(m, cj) IN
-          /\ (m \in DOMAIN ring => ring[m].gen = g)
+Join == \E m \in Members, req \in Reqs :
+          LET g == GenOf(m, CJ) IN
           /\ CanJoinSpec(g, PrevPresent(g), PrevHasTokens(g))
-          /\ (m \in Foreign => SpaceHasAtLeast(Cardinality(AllTokens(ring)) + Want(req)))
-          /\ Generate(g, m, req, AllTokens(ring))
+          /\ (m \in Foreign => SpaceHasAtLeast(Cardinality(pool) + Want(req)))
+          /\ Generate(g, m, req, pool)
 
 Lose  == \E m \in DOMAIN ring : \E t \in ring[m].toks : LoseObs(m, {t})
 Leave == \E m \in DOMAIN ring : LeaveObs(m)
@@ -297,9 +347,15 @@ CanJoin == \E m \in Members, cj \in BOOLEAN :
                         CanJoinSpec(g, PrevPresent(g), PrevHasTokens(g)))
 
 AddPartition == \E p \in Insts : /\ ring = EmptyFcn
-                                 /\ AddPartitionObs(p, reserve[<<p, 0>>])
+                                 /\ AddPartitionObs(p, reserve[<<p, 0>>], FALSE)
 
-Next == PureCall \/ Join \/ Lose \/ Leave \/ Observe \/ CanJoin \/ AddPartition
+Family == \E n \in Insts, z \in Zones : FamilyObs(z, [j \in 1..(n+1) |-> reserve[<<j-1, z>>]])
+
+Construct == \E ctor \in {"name", "id", "seed", "time"}, nz \in 0..(MaxZ+1), zin \in BOOLEAN, idok \in BOOLEAN :
+               /\ ring = EmptyFcn /\ parts = EmptyFcn
+               /\ ConstructObs(ctor, nz, zin, idok, ConstructSpec(ctor, nz, zin, idok))
+
+Next == PureCall \/ Join \/ Lose \/ Leave \/ Observe \/ CanJoin \/ AddPartition \/ Family \/ Construct
 Spec == Init /\ [][Next]_vars
 
 -----------------------------------------------------------------------------
@@ -309,6 +365,7 @@ Spec == Init /\ [][Next]_vars
 TypeOK ==
   /\ \A k \in DOMAIN reserve : reserve[k] \in Seq(Tok)
   /\ \A m \in DOMAIN ring : ring[m].toks \subseteq Tok
+  /\ pool \subseteq Tok
   /\ shrunk \in BOOLEAN
 
 Step_NoPanic        == [][C_NoPanic(last')]_vars
@@ -323,11 +380,9 @@ Step_SpreadLowestFirst == [][C_SpreadLowestFirst(last')]_vars
 Step_SpreadExact    == [][C_SpreadExact(last')]_vars
 Step_ZoneCongruentOut == [][C_ZoneCongruentOut(last')]_vars
 Step_CanJoin        == [][C_CanJoin(last') /\ C_CanJoinEnabled(last')]_vars
-Step_Reproducible   == [][C_Reproducible(last') /\ C_DisjointStep(last')]_vars
+Step_Reproducible   == [][C_ObsShape(last') /\ C_Reproducible(last') /\ C_DisjointStep(last')]_vars
+Step_Family         == [][C_FamilyShape(last') /\ C_FamilyReproducible(last') /\ C_FamilyDisjoint(last')]_vars
+Step_Constructor    == [][C_Constructor(last') /\ C_PartitionNoPanic(last')]_vars
 Step_NeverShort     == [][S_NeverShort(ring, last')]_vars
 Step_ReserveFixed   == [][\A k \in DOMAIN reserve : k \in DOMAIN reserve' /\ reserve'[k] = reserve[k]]_vars
-(* the declarative clauses are satisfiable: the constructive answer is among the allowed outputs *)
-FirstFreeAllowed ==
-  last = None => \A k \in Keys, req \in Reqs, taken \in SUBSET Tok :
-                    FirstFree(reserve[k], Want(req), taken) \in Outputs(SpreadGen(k[1], k[2], FALSE), req, taken)
 =============================================================================
